@@ -221,6 +221,61 @@ def complete_text(P, R, rule='C18.MPT.5'):
     R.floor(rule, 1, 'bounded formatter calls in the logging unit')
 
 
+def facility_created(P, R, rule='C18.TAB.10'):
+    """An entry may name a facility whose owner has not registered yet (the section is read before the modules load): the
+    parser then creates it, so that the routing is in place when the owner arrives.  On every path on which the parser
+    reports success, the facility it returns is one it found or one it created - never the NULL of a failed lookup."""
+    f = P.need_fn('log_parse_type_sevset')
+    outp = [p['name'] for p in f.param_info if p.get('t', '').replace(' ', '').startswith('structlog_type**')]
+    if not outp:
+        raise AnalysisBroken('the entry parser no longer returns the facility through a parameter')
+    tp = outp[0]
+
+    def is_out(e):
+        return isinstance(e, dict) and e.get('k') == 'un' and e.get('op') == '*' and is_var(e.get('e'), tp)
+    creators = {g.name for g in P.fns.values() if g.unit == f.unit and any(t.ev.get('callee') == 'set_insert' for t in g.calls()) and 'log_type' in (g.ret_t if hasattr(g, 'ret_t') else g.name)}
+    creators.add('log_type_register')
+
+    def on_event(st, t):
+        ev = t.ev
+        typ, res = st
+        if ev['k'] == 'store' and is_out(ev.get('lhs')) and ev.get('op') == '=':
+            rhs = ev.get('rhs') or {}
+            if const_of(rhs) == 0:
+                return ('null', res)
+            if rhs.get('k') == 'callref' and rhs.get('callee') in creators:
+                return ('made', res)
+            return ('maybe', res)
+        if ev['k'] == 'store' and is_var(ev.get('lhs')) and ev.get('op') == '=' and isinstance(const_of(ev.get('rhs')), int) and ev['lhs'].get('t') == 'int':
+            return (typ, (ev['lhs']['name'], const_of(ev['rhs'])))
+        return st
+
+    def on_edge(st, e):
+        r = rules.edge_rel(e)
+        if r and is_out(r[0]) and const_of(r[2]) == 0:
+            typ, res = st
+            if r[1] == '==':
+                return None if typ in ('made',) else ('null', res)
+            if r[1] == '!=':
+                return None if typ == 'null' else ('found' if typ == 'maybe' else typ, res)
+        return st
+    before, _, _, _ = f.forward(('unset', None), on_event, on_edge)
+    n = 0
+    for t in f.sites():
+        if t.ev['k'] != 'ret':
+            continue
+        v = t.ev.get('val')
+        for typ, res in before.get(t.key, set()):
+            val = const_of(v)
+            if val is None and is_var(v) and res and res[0] == v['name']:
+                val = res[1]
+            if val != 0:
+                continue
+            n += 1
+            R.ob(rule, typ in ('made', 'found'), t, 'where the entry parser reports success the facility is one it found or created (state: %s)' % typ, key='facility-created:%s' % typ)
+    R.floor(rule, 1, 'successful returns of the entry parser')
+
+
 def facility_by_name(P, R, rule='C18.TAB.8'):
     """An entry "facility.severities" routes the facility it NAMES: the parser's `type` result is a pure output - it is
     assigned (from the lookup of the text before the dot, or NULL) before it is ever read in that call.  Reading it
@@ -533,6 +588,7 @@ def run(P, R, tier):
     exact_names(P, R)
     destination_identity(P, R)
     facility_by_name(P, R)
+    facility_created(P, R)
     complete_text(P, R)
     wiring(P, R, h)
     record_format(P, R)
